@@ -57,6 +57,7 @@ func checkC17(c *Ctx, r *Report) {
 	dsNoValueRefusal(c, r, "C17.R3.ds-no-value-refusal")
 	keyScratchSize(c, r, "C17.R8.key-scratch")
 	wildcardBelowRoot(c, r, "C17.R4.wildcard-below-root")
+	round12(c, r, "C17")
 }
 
 // c17R6: the RSA public-key decoder accepts every modulus size the generator can produce.
